@@ -400,6 +400,38 @@ var c15Macros = &vlib.Check{
 // small documents, all permutations: <= 5 blocks - up to three types that refer to each other (properties, array items,
 // or-types, allOf, recursion through optional properties), an ENUM used by a rule, a TAG and a method using them.
 func c15SmallBlocks(r vlib.Rnd) []string {
+	if vlib.Chance(r, 1, 5) {
+		// a chain of reference types (@p0 = @p1 = ... = an object) used where the language demands "an object or a
+		// reference to an object" (Headers, Query, Path) or as a body: the demand is checked through the chain, whose links
+		// may be declared before or after the method and in any order among themselves
+		k := 2 + r.Intn(3)
+		var blocks []string
+		for i := 0; i < k; i++ {
+			if i == k-1 {
+				blocks = append(blocks, fmt.Sprintf("TYPE @p%d\n  {\n    \"id\": 1\n  }\n", i))
+			} else if vlib.Chance(r, 1, 4) && i+2 < k {
+				blocks = append(blocks, fmt.Sprintf("TYPE @p%d\n  @p%d | @p%d\n", i, i+1, i+2))
+			} else {
+				blocks = append(blocks, fmt.Sprintf("TYPE @p%d\n  @p%d\n", i, i+1))
+			}
+		}
+		use := r.Intn(k) // not always the head of the chain
+		switch r.Intn(6) {
+		case 0:
+			blocks = append(blocks, fmt.Sprintf("GET /h\n  200\n    Headers\n      @p%d\n    Body any\n", use))
+		case 1:
+			blocks = append(blocks, fmt.Sprintf("POST /h\n  Request\n    Headers\n      @p%d\n    Body any\n  200 any\n", use))
+		case 2:
+			blocks = append(blocks, fmt.Sprintf("GET /h\n  Query\n    @p%d\n  200 any\n", use))
+		case 3:
+			blocks = append(blocks, fmt.Sprintf("GET /h/{id}\n  Path\n    @p%d\n  200 any\n", use))
+		case 4:
+			blocks = append(blocks, fmt.Sprintf("URL /h/{id}\n  Path\n    @p%d\n  POST\n    Request\n      Headers\n        @p%d\n      Body any\n    200 @p%d\n", use, use, r.Intn(k)))
+		default:
+			blocks = append(blocks, fmt.Sprintf("PUT /h\n  Request @p%d\n  200 @p%d\n", use, r.Intn(k)))
+		}
+		return blocks
+	}
 	if vlib.Chance(r, 1, 4) {
 		// an URL group with its own Tags and stand-alone methods on the same path (with and without Tags of their own):
 		// who gets which tag does not depend on which block is written first
@@ -534,7 +566,7 @@ func c15SmallBlocks(r vlib.Rnd) []string {
 }
 
 var c15Small = &vlib.Check{
-	Prop: "C15", Name: "small-all-permutations", Quick: 100, Thorough: 4000,
+	Prop: "C15", Name: "small-all-permutations", Quick: 140, Thorough: 5000,
 	Oracle: c15Oracle,
 	Classify: func(c *vlib.Case) (bool, []string) {
 		b := vlib.Build(c.Project)
